@@ -26,6 +26,9 @@ use veryl_simulator::component::runtime::{host_value_from, host_value_to_value};
 /// What the component saw in its last hook: (payload words, mask words, width).
 pub static SEEN: Mutex<Vec<(Vec<u64>, Vec<u64>, u32)>> = Mutex::new(Vec::new());
 
+/// `BuildCtx::seed()` of every echo instance created (the host's `instance_seed(base, test, instance)`).
+pub static SEEDS: Mutex<Vec<u64>> = Mutex::new(Vec::new());
+
 /// Echoes input `d` to output `q` through the `Value` API and records what it read.
 pub struct Echo {
     #[allow(dead_code)]
@@ -38,6 +41,7 @@ impl Component for Echo {
     const KIND: ComponentKind = ComponentKind::Clocked;
 
     fn new(ctx: &mut BuildCtx) -> veryl_component::Result<Self> {
+        SEEDS.lock().unwrap().push(ctx.seed());
         Ok(Self { clk: ctx.clock("clk")?, d: ctx.input("d")?, q: ctx.output("q")? })
     }
 
